@@ -133,6 +133,7 @@ func cmdCheck(args []string) int {
 	seed := envInt("VERIF_SEED", 1)
 	sx.CrossCheck = os.Getenv("GOSMT_CROSSCHECK") == "1"
 	sx.DebugUnsupStack = os.Getenv("GOSMT_UNSUP_STACK") == "1"
+	sx.DebugConc = os.Getenv("GOSMT_CONC_TRACE") == "1"
 	if *verbose {
 		sx.Progress = 5 * time.Second
 		sx.DebugSlow = time.Duration(envInt("GOSMT_SLOW_MS", 3000)) * time.Millisecond
